@@ -384,6 +384,12 @@ def c04(tier: str) -> int:
         (COND_CFGS, C04_CLAUSES, conv.ev_from_data, {'quick_sample': 3, 'always': _raising_condition}),
         (SHIPPED0_CFGS, C04_CLAUSES, conv.ev_from_data, {}),
         (EXC_CFGS, C04_CLAUSES, conv.ev_from_json, {}),
+        # the build phase against the implementation-shaped model of make_converter (PaneDispatch): a difference is model
+        # drift, counted in the evidence (events_with_clauses_not_owned_here), never an alarm
+        (SCALAR_CFGS, set(), conv.ev_dispatch, {'filter': _first_of_type()}),
+        (EXC_CFGS, set(), conv.ev_dispatch, {'filter': _first_of_type()}),
+        (TAGGED_CFGS, set(), conv.ev_dispatch, {'filter': _first_of_type()}),
+        (SHIPPED0_CFGS, set(), conv.ev_dispatch, {'filter': _first_of_type()}),
         (SHIPPED0_CFGS, C04_CLAUSES, conv.ev_from_json, {}),
     ], extra=extra)
 
